@@ -25,6 +25,9 @@ the packet from its field values.
 
 Round 5: closures created in the hook-collecting loop that read the loop's variables late and
 are kept.
+
+Round 6: (b') a described field is listed under the attribute it reads and writes; __delete__
+removes no slot; builder step order also from a table of step names.
 """
 import ast
 
